@@ -19,7 +19,8 @@ contract(T3 + 'Type3Tag.NDEF._read_ndef_data', 'C08', dict(self=NDEF3()), name='
              havoc={'data': Bytes(0, None, mutable=True), 'self._tag.commands': Int(0, None)})})
 
 T4 = 'nfc.tag.tt4:'
-NDEF4 = lambda **kw: Obj(T4 + 'Type4Tag.NDEF', _partial=False, _data=None, _capacity=0, _readable=False,   # noqa
+NDEF4 = lambda _capacity=0, **kw: Obj(T4 + 'Type4Tag.NDEF', _partial=False, _data=None, _capacity=_capacity,   # noqa
+                         _readable=False,
                          _writeable=False,
                          _tag=Obj(T4 + 'Type4Tag', _partial=False, _extended_length_support=False,
                                   _dep=Obj('models.tag_models:T4CardAdversary', _partial=False, commands=0)), **kw)
@@ -33,7 +34,7 @@ contract(T4 + 'Type4Tag.NDEF._discover_ndef', 'C08', dict(self=NDEF4()), name='C
                   ('post.commands', 'self._tag._dep.commands <= 5')],
          raises={T4 + 'Type4TagCommandError': ['self._tag._dep.commands <= 5']})
 contract(T4 + 'Type4Tag.NDEF._read_ndef_data', 'C08',
-         dict(self=NDEF4(_ndef_file=Bytes(2, 2), _nlen_size=OneOf(2, 4), _max_le=Int(0, 256),
+         dict(self=NDEF4(_capacity=Int(0, None), _ndef_file=Bytes(2, 2), _nlen_size=OneOf(2, 4), _max_le=Int(0, 256),
                          _max_lc=Int(0, 255), _aid=Bytes(7, 7))),
          name='C08/tt4._read_ndef_data', requires=['self._capacity >= 0'],
          ensures=[('post.within-capacity', 'result is None or len(result) <= self._capacity')],
